@@ -162,7 +162,77 @@ fn domain_sizes() {
     crate::cover!(ok);
     assert!(ok);
 }
+// ---- mixed radix (q = 3) over the table-backed F_19: 18 = 2 * 3^2 ---------------------------------------------------
+const P19: u32 = 19;
+fn powm19(b: u32, e: u32) -> u32 {
+    let mut r = 1;
+    let mut i = 0;
+    while i < e {
+        r = (r * b) % P19;
+        i += 1;
+    }
+    r
+}
+/// MixedRadixEvaluationDomain of size S over F_19 (h = 1: the subgroup; otherwise the coset h*H): coefficients at the positions
+/// POS symbolic (ALL values), the others zero; every output equals Horner evaluation at h*g^i; ifft(fft(c)) = c
+fn mixed_fft<const S: usize, const K: usize>(pos: [usize; K], h: u32) {
+    use ark_poly::MixedRadixEvaluationDomain;
+    let mut c = [0u32; S];
+    let mut k = 0;
+    while k < K {
+        let v: u32 = any();
+        let v = v & 31;
+        assume(v < P19);
+        c[pos[k]] = v;
+        k += 1;
+    }
+    let base = MixedRadixEvaluationDomain::<PF19>::new(S).unwrap();
+    let d = if h != 1 { base.get_coset(PF19::enc(h)).unwrap() } else { base };
+    let gen = d.group_gen().val();
+    let cv: [PF19; S] = core::array::from_fn(|k| PF19::enc(c[k]));
+    let coeffs: Vec<PF19> = cv.to_vec();
+    let evals = d.fft(&coeffs);
+    let back = d.ifft(&evals);
+    let i: usize = any();
+    assume(i < S);
+    let x = (h * powm19(gen, i as u32)) % P19;
+    // independent Horner evaluation mod 19
+    let mut acc = 0u32;
+    let mut j = S;
+    while j > 0 {
+        j -= 1;
+        acc = (acc * x + c[j]) % P19;
+    }
+    crate::cover!(c[pos[K - 1]] != 0 && i > 0);
+    let mut ok = d.size() == S && evals.len() == S && back.len() == S && powm19(gen, S as u32) == 1 && (S < 2 || powm19(gen, S as u32 / 3) != 1);
+    ok = ok && evals[i].val() == acc;
+    ok = ok && back[i].val() == c[i];
+    core::mem::forget((coeffs, evals, back));
+    assert!(ok);
+}
+
 crate::harnesses! { REG;
+    /// quick required unwindset=BitIteratorBE:66,>::pow:8 | MixedRadixEvaluationDomain of size 9 = 3^2 over F_19 (two radix-3 passes, the second with m = 3): FFT / IFFT with the coefficients at positions (1, 4, 8) symbolic (ALL values), the others zero: every output equals Horner evaluation at g^i; ifft(fft(c)) = c
+    #[unwind(20)]
+    fn c07_mixed_9_a() { mixed_fft::<9, 3>([1, 4, 8], 1) }
+    /// thorough required unwindset=BitIteratorBE:66,>::pow:8 timeout=3000 | mixed radix size 9: coefficients at positions (0, 2, 5)
+    #[unwind(20)]
+    fn c07_mixed_9_b() { mixed_fft::<9, 3>([0, 2, 5], 1) }
+    /// thorough required unwindset=BitIteratorBE:66,>::pow:8 timeout=3000 | mixed radix size 9: coefficients at positions (3, 6, 7)
+    #[unwind(20)]
+    fn c07_mixed_9_c() { mixed_fft::<9, 3>([3, 6, 7], 1) }
+    /// quick required unwindset=BitIteratorBE:66,>::pow:8 | mixed radix size 6 = 2 * 3 (one radix-3 pass followed by one radix-2 pass): coefficients at positions (1, 3, 5) symbolic
+    #[unwind(20)]
+    fn c07_mixed_6() { mixed_fft::<6, 3>([1, 3, 5], 1) }
+    /// thorough attempt unwindset=BitIteratorBE:66,>::pow:8 timeout=3000 | mixed radix size 6: ALL 6 coefficients symbolic; and the coset with offset 2, positions (0, 2, 4)
+    #[unwind(20)]
+    fn c07_mixed_6_more() { mixed_fft::<6, 6>([0, 1, 2, 3, 4, 5], 1); mixed_fft::<6, 3>([0, 2, 4], 2) }
+    /// thorough attempt unwindset=BitIteratorBE:66,>::pow:8 timeout=3000 | mixed radix size 18 = 2 * 3^2 (the whole multiplicative group of F_19): coefficients at positions (1, 7, 11, 17) symbolic
+    #[unwind(30)]
+    fn c07_mixed_18() { mixed_fft::<18, 4>([1, 7, 11, 17], 1) }
+    /// thorough attempt unwindset=BitIteratorBE:66,>::pow:8 timeout=3000 | mixed radix size 9: ALL 9 coefficients symbolic
+    #[unwind(20)]
+    fn c07_mixed_9_all() { mixed_fft::<9, 9>([0, 1, 2, 3, 4, 5, 6, 7, 8], 1) }
     /// thorough attempt unwindset=>::pow:8 timeout=3000 mem=30 | Radix2 / General domain construction over F_17 for ALL requested sizes n in 0..=20 (symbolic n)
     #[unwind(70)]
     fn c07_domain_new() { domain_new() }
